@@ -878,12 +878,21 @@ class Check(PropertyCheck):
 
     @staticmethod
     def _head_only(data):
-        """(parsed head as a message without body, bytes after the header section) or (None, None)"""
-        i = data.find(b"\r\n\r\n")
-        if i < 0: return None, None
-        p = ref.parse_requests(data[:i + 4]) if not data.startswith(b"HTTP/") else ref.parse_responses(data[:i + 4], methods=[b"HEAD"])
-        if len(p.messages) != 1 or p.stop is not None: return None, None
-        return p.messages[0], data[i + 4:]
+        """(start line parts + fields of the first header section, bytes after it) or (None, None); no framing applied"""
+        h = ref._head_lines(data, 0)
+        if h[0] in ("incomplete", "malformed") or not h[0]: return None, None
+        lines, end = h
+        f = ref._fields(lines[1:])
+        if isinstance(f, tuple): return None, None
+        parts = lines[0].split(b" ")
+        m = {"fields": f}
+        if lines[0].startswith(b"HTTP/"):
+            if len(parts) < 2 or not parts[1].isdigit(): return None, None
+            m["status"] = int(parts[1])
+        else:
+            if len(parts) != 3: return None, None
+            m["method"], m["target"] = parts[0], parts[1]
+        return m, data[end:]
 
     @staticmethod
     def _cl(fields):
@@ -902,7 +911,7 @@ class Check(PropertyCheck):
                     return "F-C06a"
         # F-C06b: HTTP/2 response to an HTTP/1 client, content-length N > 0 announced, stream ended without a DATA frame;
         # recorded failure: the relayed head announces N, no body byte follows, connection kept open
-        if sv == 2 and cv == 1 and failure.startswith("client HTTP/1 response left incomplete (('incomplete', 'body'))"):
+        if sv == 2 and cv == 1 and failure.startswith("client HTTP/1 response left incomplete on an open connection (('incomplete', 'body'))"):
             rs = Src(case, "resp")
             cl = self._cl(rs.fields)
             if (rs.wellformed and not rs.body and len(cl) == 1 and re.fullmatch(rb"[1-9][0-9]*", cl[0])
